@@ -55,14 +55,14 @@ function errName(e) {
 }
 
 // run a whole program text in a fresh context; console.log is the only observable
-function runProg(src) {
+function runProg(src, limit) {
   const out = [];
   const sandbox = { console: { log: (...a) => { if (out.length < 5000) out.push(a.map(x => render(x, 0)).join(' ')); } } };
   const ctx = vm.createContext(sandbox);
   let completion = 'normal';
   try {
     const s = new vm.Script(src);
-    s.runInContext(ctx, { timeout: 200 });
+    s.runInContext(ctx, { timeout: limit || 200 });
   } catch (e) { completion = errName(e); }
   return { output: out, completion: completion };
 }
@@ -106,7 +106,8 @@ rl.on('line', line => {
     const items = (req.items || []).map(dec);
     switch (req.op) {
       case 'ping': reply = { ok: true, version: process.version }; break;
-      case 'run': reply = { ok: true, r: items.map(runProg) }; break;
+      case 'run': reply = { ok: true, r: items.map(x => runProg(x, 200)) }; break;
+      case 'runslow': reply = { ok: true, r: items.map(x => runProg(x, 5000)) }; break;
       case 'evalv': reply = { ok: true, r: items.map(evalV) }; break;
       case 'evale': reply = { ok: true, r: items.map(evalE) }; break;
       case 'syn': reply = { ok: true, r: items.map(syn) }; break;
@@ -265,6 +266,17 @@ type nodeSyn struct {
 func nodeRunAll(progs []string) []nodeRun {
 	var r []nodeRun
 	nodeCall("run", progs, &r)
+	if len(r) != len(progs) {
+		die("reference engine: %d results for %d programs", len(r), len(progs))
+	}
+	return r
+}
+
+// nodeRunSlow runs programs with a 5 s limit: used to re-examine a run that timed out
+// under the short limit (a loaded machine must not look like a behaviour change)
+func nodeRunSlow(progs []string) []nodeRun {
+	var r []nodeRun
+	nodeCall("runslow", progs, &r)
 	if len(r) != len(progs) {
 		die("reference engine: %d results for %d programs", len(r), len(progs))
 	}
